@@ -170,7 +170,8 @@ func NewDocGen(r *Rng, maxNodes, maxDepth int) *DocGen {
 		URIs:     []string{"", "", "urn:u1", "urn:u2", "http://example.com/ns"},
 		Prefixes: []string{"", "p", "q", "r"},
 		Texts: []string{"1", "2", "10", "9", " 12 ", "3.5", "-4", "abc", "", "x y", "NaN", "1e3", "0", "-0", "007",
-			" ", "\t\n", "héllo", "日本", "á", "1 2", ".5", "5.", "+1", "Infinity", "100", "0.1", "true", "b", "zz", "\u00a02", "3\u2003", "\u30004\u0085"},
+			" ", "\t\n", "héllo", "日本", "á", "1 2", ".5", "5.", "+1", "Infinity", "100", "0.1", "true", "b", "zz", "\u00a02", "3\u2003", "\u30004\u0085",
+			" -5", "\n\t-7.5\n", " -.5 ", "- 3", "-\t2"},
 		Langs: []string{"en", "en-US", "EN-gb", "zh", "ZH-tw", "zh-Hant", "de", "", "fr-CA", "x-klingon", "eng", "en-GB-x-priv"},
 	}
 }
@@ -230,6 +231,11 @@ func (g *DocGen) elem(depth int) *Node {
 		}
 		if g.R.Chance(1, 6) {
 			a = Attr{QName{xmlNS, "lang"}, pick(g.R, g.Langs)}
+			// the XHTML idiom: a lang attribute in no (or another) namespace written BEFORE xml:lang
+			if other := (QName{pick(g.R, []string{"", "", "urn:u1"}), "lang"}); g.R.Chance(1, 2) && !seen[other] && !seen[a.Name] {
+				seen[other] = true
+				n.Attrs = append(n.Attrs, Attr{other, pick(g.R, g.Langs)})
+			}
 		}
 		if seen[a.Name] {
 			continue
